@@ -217,7 +217,8 @@ fn history_case(ctx: &mut Ctx, r: &mut Rng, stats: &mut Stats) -> Result<(), Str
 	let ledger = Arc::new(Ledger::default());
 	let mut rig = Rig::new(RigConfig { sample_rate: 8000, ibs: 16, channels: 2, capacities: caps }, MainTrackBuilder::new().sound_capacity(main_sound_cap).with_effect(LEffectB(LEffect { _t: Token::new(&ledger) })));
 	let mut hist: Vec<String> = vec![format!("caps {:?} main sounds {}", caps, main_sound_cap)];
-	let mut tracks: Pool<(TrackHandle, Pool<SoundH>, usize)> = Pool::new(caps.sub_track_capacity);
+	// (handle, its sounds, its sound capacity, handles of its child tracks: dropped together with it)
+	let mut tracks: Pool<(TrackHandle, Pool<SoundH>, usize, Vec<TrackHandle>)> = Pool::new(caps.sub_track_capacity);
 	let mut sends: Pool<SendTrackHandle> = Pool::new(caps.send_track_capacity);
 	let mut clocks: Pool<ClockHandle> = Pool::new(caps.clock_capacity);
 	let mut mods: Pool<LModHandle> = Pool::new(caps.modulator_capacity);
@@ -228,13 +229,26 @@ fn history_case(ctx: &mut Ctx, r: &mut Rng, stats: &mut Stats) -> Result<(), Str
 	for _ in 0..n_ops {
 		stats.ops += 1;
 		match r.below(16) {
+			0 | 1 if r.chance(0.3) && !tracks.live_idx().is_empty() => {
+				// a child track under a live track; it is dropped together with its parent (same interval): the parent's
+				// slot must still be free after the next callback
+				let live = tracks.live_idx();
+				let ti = live[r.below(live.len() as u64) as usize];
+				let (h, _, _, kids) = tracks.items[ti].handle.as_mut().unwrap();
+				if kids.len() < 3 {
+					if let Ok(k) = h.add_sub_track(TrackBuilder::new().with_effect(LEffectB(LEffect { _t: Token::new(&ledger) }))) {
+						kids.push(k);
+						hist.push(format!("add child track under track #{}", ti));
+					}
+				}
+			}
 			0 | 1 => {
 				let sc = cap(r);
 				let res = rig.mgr.add_sub_track(TrackBuilder::new().sound_capacity(sc).with_effect(LEffectB(LEffect { _t: Token::new(&ledger) })));
 				hist.push(format!("add_sub_track(sound cap {}) -> {}", sc, res.is_ok()));
 				expect_create("sub-track", &res, tracks.count(), tracks.cap, &hist)?;
 				match res {
-					Ok(h) => tracks.add((h, Pool::new(sc), sc)),
+					Ok(h) => tracks.add((h, Pool::new(sc), sc, vec![])),
 					Err(_) => stats.limit_errors += 1,
 				}
 			}
@@ -282,7 +296,7 @@ fn history_case(ctx: &mut Ctx, r: &mut Rng, stats: &mut Stats) -> Result<(), Str
 					let data = LFailingSoundData(Token::new(&ledger));
 					if !live.is_empty() && r.chance(0.6) {
 						let ti = live[r.below(live.len() as u64) as usize];
-						let (h, pool, _) = tracks.items[ti].handle.as_mut().unwrap();
+						let (h, pool, _, _) = tracks.items[ti].handle.as_mut().unwrap();
 						let res = h.play(data);
 						hist.push(format!("play failing sound data on track #{} -> {}", ti, res.is_ok()));
 						if res.is_ok() {
@@ -312,7 +326,7 @@ fn history_case(ctx: &mut Ctx, r: &mut Rng, stats: &mut Stats) -> Result<(), Str
 				let live = tracks.live_idx();
 				if !live.is_empty() && r.chance(0.6) {
 					let ti = live[r.below(live.len() as u64) as usize];
-					let (h, pool, _) = tracks.items[ti].handle.as_mut().unwrap();
+					let (h, pool, _, _) = tracks.items[ti].handle.as_mut().unwrap();
 					let res = h.play(data);
 					hist.push(format!("play on track #{} -> {}", ti, res.is_ok()));
 					if let Err(PlaySoundError::IntoSoundError(_)) = res {
@@ -383,7 +397,7 @@ fn history_case(ctx: &mut Ctx, r: &mut Rng, stats: &mut Stats) -> Result<(), Str
 						let l = tracks.live_idx();
 						if !l.is_empty() {
 							let ti = l[r.below(l.len() as u64) as usize];
-							let (_, pool, _) = tracks.items[ti].handle.as_mut().unwrap();
+							let (_, pool, _, _) = tracks.items[ti].handle.as_mut().unwrap();
 							let ls = pool.live_idx();
 							if !ls.is_empty() {
 								hist.push(format!("finish sound on track #{}", ti));
@@ -407,7 +421,7 @@ fn history_case(ctx: &mut Ctx, r: &mut Rng, stats: &mut Stats) -> Result<(), Str
 				listeners.on_callback();
 				main_sounds.on_callback();
 				for t in tracks.items.iter_mut() {
-					if let Some((_, pool, _)) = t.handle.as_mut() {
+					if let Some((_, pool, _, _)) = t.handle.as_mut() {
 						pool.on_callback();
 					}
 				}
@@ -435,7 +449,7 @@ fn history_case(ctx: &mut Ctx, r: &mut Rng, stats: &mut Stats) -> Result<(), Str
 			}
 		}
 		for (ti, t) in tracks.items.iter().enumerate() {
-			if let Some((h, pool, sc)) = t.handle.as_ref() {
+			if let Some((h, pool, sc, _)) = t.handle.as_ref() {
 				if h.num_sounds() != pool.count() || h.sound_capacity() != *sc || h.num_sounds() > *sc {
 					return Err(format!("track #{} num_sounds = {} (capacity {}) but created minus removed = {} (capacity {}) [{}]", ti, h.num_sounds(), h.sound_capacity(), pool.count(), sc, hist.join("; ")));
 				}
